@@ -91,4 +91,10 @@ CHECKS = {
   "text": "For generated structures, user grids (incl. decimal steps that do not accumulate exactly, negative minima, maxima > 14), windows and parameter files with shifted model pKa values (run one after another in the same process), both references: the dG profile equals the closed-form linkage expression built from the record (1e-9) and is Simpson-consistent with the reported charge curves; profile pH values are exactly min + i*step incl. both end points; optimum, 80 % range and stability range are re-derived from the profile; the printed charge table, folding window rows, optimum and range lines agree.",
   "note": "Printed folding rows are asserted only where every reading of 'window' agrees (grid step >= 0.1, window minimum a multiple of the window step, lattice points on the grid). Fixed findings F2, F3, F14 are regression cases.",
  },
+ "C18": {
+  "level": "exploration",
+  "technique": "property-based testing (Hypothesis) of generated parameter files against an independent dictionary model, checked after every parsed line; exhaustive enumeration of all pairs of creatable group types under the shipped file",
+  "text": "Part 1: files from a grammar (matrix rows with invented names and I/N/-/numeric cells, pair lines in any order with repeats, default line anywhere or absent, scalar cut-offs set through plain and _squared names in any sequence, comments/tabs) are parsed line by line and through read_parameter_file; after every line all ordered look-ups (incl. unknown names) of both matrices must equal the reference model - which implies symmetry, default fall-back and last-definition-wins - and every squared cut-off must equal the square of the plain one. Part 2 (exhaustive): under the shipped file every ordered pair of the 28 creatable group types has an entry in {I,N,-}, every model-pKa type is written out with a non-zero charge, all inner cut-offs are below the outer ones.",
+  "note": "The set of creatable types is derived by introspecting propka/group.py (is_ligand_group_by_groups source, protein_group_mapping). Unreachable matrix rows (SER) are reported in evidence only. Fixed finding F7 (Cl vs CL) is covered by part 2.",
+ },
 }
